@@ -48,7 +48,10 @@ func loadMainUnit() (*Unit, []string, error) {
 		{"flag.Arg", false, []string{"i"}, []string{"ensures result == flagArg(i)"}},
 		// files: a successful open yields a new *os.File (not nil, not one of the standard streams) carrying the name it was opened with
 		{"os.Open", false, []string{"name"}, []string{"ensures result1 == nil ==> result0 != nil && result0 != os.Stdin && result0 != os.Stdout && result0 != os.Stderr && fileName(result0) == name", "modifies var failed", "ensures result1 != nil ==> failed", "ensures result1 == nil ==> failed == old(failed)"}},
-		{"os.OpenFile", false, []string{"name", "flag", "perm"}, []string{"ensures result1 == nil ==> result0 != nil && result0 != os.Stdin && result0 != os.Stdout && result0 != os.Stderr && fileName(result0) == name", "modifies var failed", "ensures result1 != nil ==> failed", "ensures result1 == nil ==> failed == old(failed)"}},
+		{"os.OpenFile", false, []string{"name", "oflag", "perm"}, []string{"ensures result1 == nil ==> result0 != nil && result0 != os.Stdin && result0 != os.Stdout && result0 != os.Stderr && fileName(result0) == name",
+			// the file starts empty and is writable exactly when it is opened for writing, created if missing and truncated: the flag
+			// argument is a constant in the code (linux: O_WRONLY=1, O_RDWR=2, O_CREATE=0x40, O_TRUNC=0x200)
+			"ensures result1 == nil ==> openedFresh(result0) == (oflag == 577 || oflag == 578)", "modifies var failed", "ensures result1 != nil ==> failed", "ensures result1 == nil ==> failed == old(failed)"}},
 		{"(os.File).Close", false, nil, nil},
 		{"io.ReadAll", false, []string{"r"}, []string{"modifies var failed", "ensures result1 != nil ==> failed", "ensures result1 == nil ==> failed == old(failed)"}},
 		// output that is not the generated parser: no effect on the ghost state
